@@ -35,9 +35,14 @@ var objKinds = []string{"cert", "cert-selfsigned", "csr", "cfca-csr", "crl"}
 // (a sweep under a P-384 issuer costs ten times the others).
 var signerCycle = []keyKind{kSM2, kP256, kRSA, kSM2, kEd25519, kSM2, kP384, kRSA, kP256, kSM2}
 
-// objects: one case = one created object (certificate, request, CFCA request or
-// revocation list) with the field/signature laws, the key-substitution law and the
-// complete single-byte alteration sweep over its DER.
+// objects: one object = one created certificate, request, CFCA request or revocation
+// list, handled in sweepParts cases (to keep a case short): every part re-creates the
+// object from the same template and keys and checks that it parses and verifies; part 0
+// carries the field/signature laws, the key-substitution and issuer-gating laws, the
+// truncations and the trailing-data extensions; part p sweeps the DER offsets = p mod sweepParts,
+// so the parts together apply all 4 substitutions at every offset.
+const sweepParts = 4
+
 func objects(x *mon.Ctx, sha1Mode bool) {
 	if err := selfTest(); err != nil {
 		x.HarnessError("%v", err)
@@ -59,36 +64,50 @@ func objects(x *mon.Ctx, sha1Mode bool) {
 		if kind == "cfca-csr" && sha1Mode {
 			kind = "csr"
 		}
-		c := x.Begin("object #%d kind=%s signer=%v sha1=%v (template, subject key, algorithm drawn from the case PRNG; all 4 substitutions at every DER offset, every 4th offset for P-384 signers)", i, kind, sk, sha1Mode)
-		if c == nil {
-			continue
+		for p := 0; p < sweepParts; p++ {
+			c := x.Begin("object #%d part %d/%d kind=%s signer=%v sha1=%v (template, keys and algorithm from the PRNG of (seed, workload, object number), the same in all parts; "+
+				"this part applies the 4 substitutions at the DER offsets = %d mod %d%s)", i, p, sweepParts, kind, sk, sha1Mode, p, sweepParts,
+				map[bool]string{true: "; P-384 issuer: only every 4th of those", false: ""}[sk == kP384])
+			if c == nil {
+				continue
+			}
+			runObject(c, x.Seed, x.Workload, i, p, kind, sk, sha1Mode)
+			c.End()
 		}
-		runObject(c, i, kind, sk, sha1Mode)
-		c.End()
 	}
 }
 
 // libR is the random source handed to the library during the current case. It is a
-// stream of its own, split off the case PRNG before anything else is drawn: the
-// library consumes a non-reproducible number of bytes (randutil.MaybeReadByte), which
-// must not shift the stream the generator takes its decisions from. Workloads run on
-// one goroutine.
+// stream of its own: the library consumes a non-reproducible number of bytes
+// (randutil.MaybeReadByte), which must not shift the stream the generator takes its
+// decisions from. Workloads run on one goroutine, so per-case state is kept in
+// package variables.
 var libR *mon.Rand
 
-// sweepStride/sweepPhase of the current case: objects signed by a P-384 key (one
-// verification costs as much as twenty of the others) are swept at every fourth offset,
-// starting at the object number mod 4; all other objects at every offset.
+// genR is the generator stream of the object workloads: a function of (seed, workload,
+// object number), hence the same in all parts of an object.
+var genR *mon.Rand
+
+// curPart is the part of the object the current case handles (laws only in part 0).
+var curPart int
+
+// sweepStride/sweepPhase of the current case: part p visits the offsets = p mod sweepParts.
+// Objects signed by a P-384 key (one verification costs as much as twenty of the others)
+// are swept at a quarter of those offsets, selected by the object number.
 var sweepStride, sweepPhase = 1, 0
 
 func splitLibRand(c *mon.Case) { libR = mon.NewRand(c.R.Uint64(), "c15.library-random-source") }
 
-func runObject(c *mon.Case, i int, kind string, sk keyKind, sha1Mode bool) {
-	splitLibRand(c)
-	sweepStride, sweepPhase = 1, 0
+func runObject(c *mon.Case, seed uint64, workload string, i, part int, kind string, sk keyKind, sha1Mode bool) {
+	genR = mon.NewRand(seed, workload+".object", i)
+	libR = c.R
+	curPart = part
+	f := 1
 	if sk == kP384 {
-		sweepStride, sweepPhase = 4, i%4
+		f = 4
 	}
-	r := c.R
+	sweepStride, sweepPhase = sweepParts*f, part+sweepParts*(i%f)
+	r := genR
 	signer, err := newKey(r, sk, 0)
 	if err != nil {
 		c.Fail("reject", "key generation: %v", err)
@@ -99,7 +118,7 @@ func runObject(c *mon.Case, i int, kind string, sk keyKind, sha1Mode bool) {
 		alg = ch[r.Intn(len(ch))]
 	}
 	uniq := fmt.Sprintf(" %x", r.Bytes(4))
-	if signer.kind == kSM2 {
+	if signer.kind == kSM2 && curPart == 0 {
 		// the public key is derived by the library from a fixed scalar: equal in every configuration
 		px, py := sm2XY(signer)
 		c.Digest(fmt.Sprintf("sm2-public-key/%d", i), append(px.Bytes(), py.Bytes()...))
@@ -136,7 +155,7 @@ func expectAlg(signer key, alg x509.SignatureAlgorithm) x509.SignatureAlgorithm 
 // makeCA creates a self-signed CA certificate for key k through the library and
 // parses it. tweak may edit the template.
 func makeCA(c *mon.Case, k key, alg x509.SignatureAlgorithm, uniq string, tweak func(t *x509.Certificate)) (*x509.Certificate, *smx509.Certificate, []byte, bool) {
-	t := genCertTemplate(c.R, true, uniq)
+	t := genCertTemplate(genR, true, uniq)
 	t.SignatureAlgorithm = alg
 	if tweak != nil {
 		tweak(t)
@@ -165,7 +184,7 @@ func makeCA(c *mon.Case, k key, alg x509.SignatureAlgorithm, uniq string, tweak 
 // ---- certificates ----
 
 func certObject(c *mon.Case, selfSigned bool, signer key, alg x509.SignatureAlgorithm, uniq string) {
-	r := c.R
+	r := genR
 	var tmpl *x509.Certificate
 	var parent *smx509.Certificate
 	var parsed *smx509.Certificate
@@ -200,7 +219,10 @@ func certObject(c *mon.Case, selfSigned bool, signer key, alg x509.SignatureAlgo
 		c.Fail("reject", "CreateCertificate refused a well-formed template (signer %v alg %s subject %v): %v", signer.kind, algName(alg), subj.kind, err)
 		return
 	}
-	c.Event("objects_created/cert", 1)
+	c.Event("object_instances_created", 1)
+	if curPart == 0 {
+		c.Event("objects_created/cert", 1)
+	}
 	c.Detail("der", der)
 	if !c.Call("ParseCertificate", func() { parsed, err = smx509.ParseCertificate(der) }) {
 		return
@@ -281,6 +303,9 @@ func expectedPathLen(t *x509.Certificate) int {
 }
 
 func checkCertFields(c *mon.Case, t *x509.Certificate, issuer *smx509.Certificate, selfSigned bool, p *smx509.Certificate, subj, signer key, alg x509.SignatureAlgorithm) {
+	if curPart != 0 {
+		return // the laws are checked once per object, in part 0
+	}
 	bad := func(what string, got, want any) {
 		c.Fail("mismatch", "created certificate parses back with a different %s: got %v want %v", what, got, want)
 	}
@@ -378,6 +403,9 @@ func checkCertFields(c *mon.Case, t *x509.Certificate, issuer *smx509.Certificat
 // reference SM3 (user id 1234567812345678), so that a signer and a verifier that are
 // wrong in the same way do not pass.
 func independentSigCheck(c *mon.Case, what string, signer key, alg x509.SignatureAlgorithm, tbs, sig []byte) {
+	if curPart != 0 {
+		return // the laws are checked once per object, in part 0
+	}
 	if signer.kind != kSM2 {
 		return
 	}
@@ -394,12 +422,15 @@ func independentSigCheck(c *mon.Case, what string, signer key, alg x509.Signatur
 
 // substituteIssuer: the object must not verify under a different issuer key.
 func substituteIssuer(c *mon.Case, signer key, viaFrom, viaCheck func(other *smx509.Certificate) error, uniq string) {
+	if curPart != 0 {
+		return // the laws are checked once per object, in part 0
+	}
 	others := []key{}
-	if k, err := otherKey(c.R, signer); err == nil {
+	if k, err := otherKey(genR, signer); err == nil {
 		others = append(others, k)
 	}
-	ok2 := keyKind((int(signer.kind) + 1 + c.R.Intn(int(nKinds)-1)) % int(nKinds))
-	if k, err := newKey(c.R, ok2, 0); err == nil {
+	ok2 := keyKind((int(signer.kind) + 1 + genR.Intn(int(nKinds)-1)) % int(nKinds))
+	if k, err := newKey(genR, ok2, 0); err == nil {
 		others = append(others, k)
 	}
 	for _, ok := range others {
@@ -426,6 +457,9 @@ func substituteIssuer(c *mon.Case, signer key, viaFrom, viaCheck func(other *smx
 // sign (not a CA, basic constraints absent, key usage without the needed bit) must be refused;
 // the same certificate without a key usage extension must be accepted.
 func parentGating(c *mon.Case, signer key, uniq string, needed x509.KeyUsage, check func(p *smx509.Certificate) error, what string) {
+	if curPart != 0 {
+		return // the laws are checked once per object, in part 0
+	}
 	type variant struct {
 		name  string
 		tweak func(t *x509.Certificate)
@@ -439,7 +473,7 @@ func parentGating(c *mon.Case, signer key, uniq string, needed x509.KeyUsage, ch
 		}, false},
 		{"no key usage extension", func(t *x509.Certificate) { t.KeyUsage = 0 }, true},
 	}
-	v := vs[c.R.Intn(len(vs))]
+	v := vs[genR.Intn(len(vs))]
 	_, pc, _, ok := makeCA(c, signer, 0, "G"+uniq, v.tweak)
 	if !ok {
 		return
@@ -460,6 +494,9 @@ func parentGating(c *mon.Case, signer key, uniq string, needed x509.KeyUsage, ch
 // stdlibCrossCheck: a well-formed object created by smx509 without any SM2 key in it
 // must also parse and verify with crypto/x509 (interoperability of created objects).
 func stdlibCrossCheck(c *mon.Case, der []byte, signer, subj key, issuer *smx509.Certificate, selfSigned bool) {
+	if curPart != 0 {
+		return // the laws are checked once per object, in part 0
+	}
 	if signer.kind == kSM2 || subj.kind == kSM2 {
 		return
 	}
@@ -554,17 +591,19 @@ func sweep(c *mon.Case, what string, der []byte, orig sigParts, fidelity bool, p
 			try(m, fmt.Sprintf("offset %d: %#02x -> %#02x (subst %d)", i, der[i], v, k), region(i))
 		}
 	}
-	for n := 0; n < len(der); n++ {
-		try(der[:n:n], fmt.Sprintf("truncated to %d of %d bytes", n, len(der)), "truncation")
+	if curPart == 0 {
+		for n := 0; n < len(der); n++ {
+			try(der[:n:n], fmt.Sprintf("truncated to %d of %d bytes", n, len(der)), "truncation")
+		}
+		trail := "trailing"
+		if !fidelity {
+			trail = "trailing(Raw fidelity not judged)"
+		}
+		try(append(append([]byte{}, der...), 0x00), "with one trailing zero byte", trail)
+		try(append(append([]byte{}, der...), der...), "followed by a copy of itself", trail)
+		c.Event("sweeps(objects)", 1)
 	}
-	trail := "trailing"
-	if !fidelity {
-		trail = "trailing(Raw fidelity not judged)"
-	}
-	try(append(append([]byte{}, der...), 0x00), "with one trailing zero byte", trail)
-	try(append(append([]byte{}, der...), der...), "followed by a copy of itself", trail)
-	c.Event("sweeps", 1)
-	c.Event(fmt.Sprintf("sweep_bytes(stride %d)", sweepStride), len(der))
+	c.Event(fmt.Sprintf("swept_offsets(stride %d)", sweepStride), (len(der)-sweepPhase+sweepStride-1)/sweepStride)
 }
 
 // ---- certificate requests ----
@@ -590,7 +629,7 @@ func genCSRTemplate(r *mon.Rand, uniq string) *x509.CertificateRequest {
 }
 
 func csrObject(c *mon.Case, signer key, alg x509.SignatureAlgorithm, uniq string) {
-	r := c.R
+	r := genR
 	t := genCSRTemplate(r, uniq)
 	t.SignatureAlgorithm = alg
 	c.Class("csr/signer=%v/alg=%s/sans=%v/ext=%d", signer.kind, algName(alg), len(t.DNSNames)+len(t.EmailAddresses)+len(t.IPAddresses)+len(t.URIs) > 0, len(t.ExtraExtensions))
@@ -603,7 +642,10 @@ func csrObject(c *mon.Case, signer key, alg x509.SignatureAlgorithm, uniq string
 		c.Fail("reject", "CreateCertificateRequest refused a well-formed template (signer %v alg %s): %v", signer.kind, algName(alg), err)
 		return
 	}
-	c.Event("objects_created/csr", 1)
+	c.Event("object_instances_created", 1)
+	if curPart == 0 {
+		c.Event("objects_created/csr", 1)
+	}
 	c.Detail("der", der)
 	var p *smx509.CertificateRequest
 	if !c.Call("ParseCertificateRequest", func() { p, err = smx509.ParseCertificateRequest(der) }) {
@@ -645,6 +687,9 @@ func csrObject(c *mon.Case, signer key, alg x509.SignatureAlgorithm, uniq string
 }
 
 func checkCSRFields(c *mon.Case, t *x509.CertificateRequest, p *smx509.CertificateRequest, signer key, alg x509.SignatureAlgorithm) {
+	if curPart != 0 {
+		return // the laws are checked once per object, in part 0
+	}
 	cmp := func(what string, got, want string) {
 		c.Event("field_comparisons", 1)
 		if got != want {
@@ -679,7 +724,7 @@ func checkCSRFields(c *mon.Case, t *x509.CertificateRequest, p *smx509.Certifica
 // ---- CFCA requests ----
 
 func cfcaObject(c *mon.Case, signer key, alg x509.SignatureAlgorithm, uniq string) {
-	r := c.R
+	r := genR
 	t := &x509.CertificateRequest{Subject: genName(r, r.Range(1, 4), uniq), SignatureAlgorithm: alg}
 	var tmp key
 	var tmpPub any
@@ -707,7 +752,10 @@ func cfcaObject(c *mon.Case, signer key, alg x509.SignatureAlgorithm, uniq strin
 		c.Fail("reject", "CreateCFCACertificateRequest refused a well-formed request (signer %v alg %s %s): %v", signer.kind, algName(alg), mode, err)
 		return
 	}
-	c.Event("objects_created/cfca-csr", 1)
+	c.Event("object_instances_created", 1)
+	if curPart == 0 {
+		c.Event("objects_created/cfca-csr", 1)
+	}
 	c.Detail("der", der)
 	var p *smx509.CertificateRequestCFCA
 	if !c.Call("ParseCFCACertificateRequest", func() { p, err = smx509.ParseCFCACertificateRequest(der) }) {
@@ -761,7 +809,7 @@ func cfcaObject(c *mon.Case, signer key, alg x509.SignatureAlgorithm, uniq strin
 // ---- revocation lists ----
 
 func crlObject(c *mon.Case, signer key, alg x509.SignatureAlgorithm, uniq string) {
-	r := c.R
+	r := genR
 	_, issuer, _, ok := makeCA(c, signer, 0, "R"+uniq, nil)
 	if !ok {
 		return
@@ -799,7 +847,10 @@ func crlObject(c *mon.Case, signer key, alg x509.SignatureAlgorithm, uniq string
 		c.Fail("reject", "CreateRevocationList refused a well-formed template (signer %v alg %s): %v", signer.kind, algName(alg), err)
 		return
 	}
-	c.Event("objects_created/crl", 1)
+	c.Event("object_instances_created", 1)
+	if curPart == 0 {
+		c.Event("objects_created/crl", 1)
+	}
 	c.Detail("der", der)
 	var p *smx509.RevocationList
 	if !c.Call("ParseRevocationList", func() { p, err = smx509.ParseRevocationList(der) }) {
